@@ -117,9 +117,13 @@ class EndpointUrlArgsGenerator:
         if path_params:
             # Import DataclassSerializer since we use it for parameter serialization
             context.add_import(f"{context.core_package_name}.utils", "DataclassSerializer")
+            # ... and percent-encoded: the value is one path segment, a `/`, `?`, `#` or `%` in it must not become URL syntax
+            context.add_import("urllib.parse", "quote")
             for p in path_params:
                 param_var_name = NameSanitizer.sanitize_method_name(p["name"])
-                writer.write_line(f"{param_var_name} = DataclassSerializer.serialize({param_var_name})")
+                writer.write_line(
+                    f'{param_var_name} = quote(str(DataclassSerializer.serialize({param_var_name})), safe="")'
+                )
             writer.write_line("")  # Blank line after path param serialization
 
         url_expr = self._build_url_with_path_vars(op.path)
